@@ -139,6 +139,12 @@ def judge(rc, so, se):
         bad.append(("crash", (m.group(1) if m else "exit status %d" % rc) + ""))
     elif re.search(r"^(panic: |fatal error: )", se, re.M):
         bad.append(("crash", re.search(r"^(panic: .*|fatal error: .*)$", se, re.M).group(1)))
+    if not bad:
+        # the linter gave up (e.g. "failed loading result: ..."): a message on stderr that is not a warning
+        for line in se.splitlines():
+            if line.strip() and not line.startswith("warning:") and not line.startswith("go: "):
+                bad.append(("abort", line.strip()[:300]))
+                break
     for line in so.splitlines():
         try:
             d = json.loads(line)
@@ -356,7 +362,7 @@ ck.log("real binary over generated module, damaged warm cache (%d deleted, %d tr
 for kind, detail in bad[:4]:
     if already(kind, detail):
         continue
-    ck.violation("warm-cache-damaged:%s:%s" % (kind, canon(re.sub(r"[0-9a-f]{40,}", "<id>", detail))),
+    ck.violation("warm-cache-damaged:%s:%s" % (kind, canon(re.sub(r"\S*[0-9a-f]{40,}\S*", "<cache file>", detail))),
                  "staticcheck (all analyzers) over the unchanged generated module with a warm cache whose output files were partly deleted/truncated: %s %s" % (kind, detail[:300]),
                  {"deleted": ndel, "truncated": ntrunc, "seed": ck.seed, "stderr": se[:3000],
                   "rerun": "lint a module twice with the same STATICCHECK_CACHE, removing or truncating *-d files of the cache between the runs"})
@@ -578,7 +584,7 @@ ck.assume += [
     "go/types export data and types.Implements (used to cross-check genmodel's universes on every run)",
     "exclusion table Model/C03_Registry.v: each excluded universe member carries a justification from the Go spec / go/parser / go/types contract; only the NotConstructed ones are machine-checked",
     "the abstract dispatch model covers the choice of the clause only; what a clause does after being chosen (type assertions, index expressions, nil dereferences inside analyzers) is not modelled and only explored",
-    "exploration oracle: exit status 0/1, no 'panic:'/'fatal error:' on stderr, no compile/config problem in the JSON output, no 'skipped package' warning, for the real binary built from the working tree",
+    "exploration oracle: exit status 0/1, no 'panic:'/'fatal error:' on stderr, no compile/config problem in the JSON output, no 'skipped package' warning (other than for the deliberately oversized package), nothing but warnings on stderr, for the real binary built from the working tree",
 ]
 ck.finish({
     "explanation": "PARTIAL. Proved (Coq, re-checked every run on tables regenerated from source): for each of the %s registered panicking switches the case list covers its universe minus the justified exclusions (switch_total), with a general lemma that such coverage makes the panicking default unreachable in the dispatch model; every panicking switch found by the scan (%s) is registered, listed explored-only with a reason (%s) or self-covering. NOT proved: absence of panics other than a missed dispatch case; termination; spurious compile/config failures. Those are explored: %d analyzers x %d generated packages in process (per-analyzer recover) and the real staticcheck binary (all analyzers incl. quickfix) over the generated module, %s." % (
